@@ -34,7 +34,9 @@ def call(logic, K, f, naming='int', how=0, containers='list', form='obj', F=None
             arg = fm.to_text(f)
         else:
             # 'shared': equal subformulas are ONE object, used at several places of the formula
-            arg = fm.to_lib(f, fm.lang(objlang or logic), raw_leaves, share={} if form == 'shared' else None)
+            # 'raw': atoms and constants handed to the parent constructors as bare str / bool (the documented
+            # shortcut: U('p', 'q'), Or(True, 'p')) instead of AtomicProposition / Bool objects
+            arg = fm.to_lib(f, fm.lang(objlang or logic), raw_leaves or form == 'raw', share={} if form == 'shared' else None)
             if form == 'str':
                 arg = str(arg)
     except Exception as e:
@@ -74,6 +76,8 @@ def make_F(F, nm, fshape='list-set'):
         # ... as many of them as to make every P larger than the whole state set (an F written for a
         # bigger model and reused on a substructure)
         return [set(P) | set(('elsewhere', k) for k in range(9)) for P in sets]
+    if fshape == 'frozenset-frozenset':
+        return frozenset(frozenset(P) for P in sets)
     if fshape == 'set-frozenset':
         return set(frozenset(P) for P in sets)
     if fshape == 'dict-values':
